@@ -443,7 +443,17 @@ def iter1(ctx) -> List[Ob]:
             if isinstance(s_, ast.Assign) and s_.value in pops and isinstance(s_.targets[0], ast.Name):
                 popped = s_.targets[0].id
         yields = [y for y in A.walk_no_nested(ast.Module(w.body, [])) if isinstance(y, ast.Yield)]
-        gates = [g for g in A.walk_no_nested(ast.Module(w.body, [])) if isinstance(g, ast.If) and isinstance(g.test, ast.Compare) and isinstance(g.test.ops[0], ast.In) and popped and A.unparse(g.test.left) == popped and g.body and isinstance(g.body[-1], ast.Continue)]
+        # the gate in either spelling: `if <name> in <seen>: continue` before the yield, or the yield inside
+        # `if <name> not in <seen>:` (the normal form of the former, see astutil.canonicalise)
+        def _gated(g_: ast.If, y_: ast.AST) -> bool:
+            inside_body = any(a is g_ for a in A.ancestors(y_)) and any(y_ is x or any(a is x for a in A.ancestors(y_)) for x in g_.body)
+            inside_else = any(a is g_ for a in A.ancestors(y_)) and not inside_body
+            if isinstance(g_.test.ops[0], ast.In):
+                return (A.always_leaves(g_.body) and not inside_body and cfg.dominates(cfg.node_of(g_), cfg.node_of(y_))) or inside_else
+            return inside_body
+
+        gates = [g for g in A.walk_no_nested(ast.Module(w.body, [])) if isinstance(g, ast.If) and isinstance(g.test, ast.Compare) and len(g.test.ops) == 1 and isinstance(g.test.ops[0], (ast.In, ast.NotIn)) and popped and A.unparse(g.test.left) == popped
+                 and yields and all(_gated(g, y_) for y_ in yields)]
         key = "visited gate and single yield"
         probs = []
         if not popped or not yields:
@@ -461,7 +471,7 @@ def iter1(ctx) -> List[Ob]:
                 an = cfg.node_of(adds[0])
                 for y in yields:
                     yn = cfg.node_of(y)
-                    if not (cfg.dominates(gn, yn) and cfg.dominates(an, yn)):
+                    if not (_gated(g, y) and cfg.dominates(an, yn)):
                         probs.append(f"the yield at line {A.lineno(y)} is not preceded by the visited gate and the recording of {popped}")
                 if len([y for y in yields]) != 1:
                     probs.append(f"{len(yields)} yields of single items in one iteration")
@@ -562,7 +572,7 @@ def _guard_key(fn, node) -> str:
     from .ctrl import _guard_conditions
 
     gs = _guard_conditions(fn.node, node)[:1]  # the innermost condition only: the one that selects the arm
-    return " & ".join(("" if pol else "not ") + A.alpha_key(ast.parse(t, mode="eval").body) for t, pol in reversed(gs))
+    return " & ".join(A.cond_key(t, pol) for t, pol in reversed(gs))
 
 
 @rule("TOTAL-9", 6, "rendering never rejects a graph: every raise / assert reachable from the renderers is a type narrowing or an audited unreachable arm (keyed with its guard)")
@@ -587,24 +597,10 @@ def total9(ctx) -> List[Ob]:
 
 
 def _use_guards(fn_node, node):
-    """guards of an expression: enclosing if-statements and conditional expressions"""
-    out = []
-    child = node
-    for anc in A.ancestors(node):
-        if isinstance(anc, ast.If):
-            if child in anc.body:
-                out.append((A.unparse(anc.test), True))
-            elif child in anc.orelse:
-                out.append((A.unparse(anc.test), False))
-        elif isinstance(anc, ast.IfExp):
-            if child is anc.body:
-                out.append((A.unparse(anc.test), True))
-            elif child is anc.orelse:
-                out.append((A.unparse(anc.test), False))
-        if anc is fn_node:
-            break
-        child = anc
-    return out
+    """guards of an expression: enclosing if-statements, guard clauses before it and conditional expressions"""
+    from .ctrl import _guard_conditions as _gc
+
+    return _gc(fn_node, node, ifexp=True)
 
 
 def _flag_guarded(fn_node, var, use_guards) -> bool:
